@@ -190,6 +190,30 @@ func (p *Path) segsOf(s *Slice) ([]Seg, bool) {
 	return p.window(s.Obj.Segs, s.Off, s.Len)
 }
 
+// OpaqueWindow replaces the bytes seen through s by one blob named name (an in-place transformation
+// the interpreter does not follow, e.g. masking).
+func (p *Path) OpaqueWindow(s *Slice, name string) {
+	if s.Obj == nil {
+		return
+	}
+	p.replaceWindow(s.Obj, s.Off, s.Len, []Seg{{Blob: name, Len: s.Len}})
+}
+
+// AppendSink appends the bytes seen through s to the named writer's sink.
+func (p *Path) AppendSink(name string, s *Slice) bool {
+	segs, ok := p.segsOf(s)
+	if !ok {
+		return false
+	}
+	o, ok2 := p.Sinks["sink:"+name]
+	if !ok2 {
+		o = p.newObj(OBuffer, name)
+		p.Sinks["sink:"+name] = o
+	}
+	o.Segs = append(o.Segs, segs...)
+	return true
+}
+
 // SegsOf is the exported form of segsOf.
 func (p *Path) SegsOf(s *Slice) ([]Seg, bool) { return p.segsOf(s) }
 
